@@ -138,6 +138,10 @@ def gen(chk):
             cases.append(('"before".p\nr := ' + body + '\n"after".p\n', L(ms), "shortcut"))
     cases.append(('it0 := [10, 20, 30]._iter\nr := [it0.next || 0, it0.next && 1, it0.next]\nr.p\n', "[10, 1, 30]\n", "shortcut"))
     cases.append(('a := tz(1)\na ||= t(2)\na ||= t(3)\na &&= t(4)\na.p\n', "1\n2\n4\n4\n", "shortcut"))
+    # the parts of an embedded str are converted one by one, also when two parts are the SAME object (its S may print or advance)
+    cases.append(('o := {S: m{t(7).S}}\n"before".p\nr := "#{o}-#{o}"\n"after".p\nr.p\n', "before\n7\n7\nafter\n7-7\n", "embstr-same-object"))
+    cases.append(('c := [1, 2, 3]._iter\nq := {S: m{c.next.S}}\nr := "#{q}#{q}#{q}"\nr.p\n', "123\n", "embstr-same-object"))
+    cases.append(('o := {S: m{t(7).S}}\nr := "#{o}#{ t(1) }#{o}#{ t(1) }"\nr.p\n', "7\n1\n7\n1\n7171\n", "embstr-same-object"))
     # a call whose property does not exist still evaluates what is written — arguments, keyword arguments, chain argument —
     # once and in order before it fails, and an argument's own error wins
     for body, ms in [("{}.nosuch(t(1), t(2))", [1, 2]), ("1.nosuch(t(1), k: t(2))", [1, 2]), ('"s".nosuch(*[t(1)], **{k: t(2)})', [1, 2]),
@@ -214,5 +218,6 @@ def main(chk):
     for i in (0, len(progs) // 2, len(progs) - 1):
         chk.sample({"program": progs[i], "expected_out": cases[i][1], "impl_out": res[i]["impl"].get("out"),
                     "model_verdict": res[i]["verdict"]})
+    chk.cov["rule"] += " Added after seeded round 5: short-cut operators and conditionals with marker operands in every position (26 shapes), a call of an absent property (its arguments are evaluated first, an argument's error wins), embedded strs whose parts are one object with an impure S."
     return pancore.conclude(chk, ok, broken, "Props/C08.v", res, viol, model_only, "C08",
                             "Core.Interp vs evaluator/*.go on marker programs")
